@@ -490,4 +490,12 @@ def docFail : Exchange → Option Resp
   | .okx => some (.okx (.error 60012))
   | .bitfinex => none
 
+/-! ## Added after the review of the sub-check theorems (specification vocabulary only) -/
+
+/-- `Map::from_iter` said without a map: the instrument under key `k` is the one of the LAST entry of the
+list that carries `k`; none if no entry does. (The spec driver prints the generic validators' `map` line from
+this function of the `init` op; `Props.C13S.ofList_get_is_last_entry` relates it to `IMap.ofList`.) -/
+def lastEntry (es : List (Key × Nat)) (k : Key) : Option Nat :=
+  (es.reverse.find? (fun e => e.1 == k)).map (·.2)
+
 end BarterModel.SubValidator
